@@ -18,7 +18,22 @@ ASSUMPTIONS = ["bincode's serialized_size agrees with serialize_into for the sam
                "bytes::BufMut::put_u64 / u64::from_be_bytes / Buf::get_u64 are big-endian (std/bytes semantics)"]
 
 FRAME = "selium_protocol::frame::Frame"
-DEC_KEEP = ("selium_protocol::codec::validate_payload_length", "<selium_protocol::frame::Frame as core::convert::TryFrom<(u8, bytes::bytes_mut::BytesMut)>>::try_from")
+TRY_FROM = "<selium_protocol::frame::Frame as core::convert::TryFrom<(u8, bytes::bytes_mut::BytesMut)>>::try_from"
+
+
+def limit_fn(F):
+    """the function that enforces the frame size limit — found by what it does (it is the one place in selium_protocol that builds
+    ProtocolError::PayloadTooLarge), not by its (private) name"""
+    from ..facts import AnchorMissing
+    c = [b for p_, b in sorted(F.bodies.items()) if b.crate == "selium_protocol" and b.kind in ("Fn", "AssocFn") and not b.is_coroutine and
+         any(rv.get("variant") == "PayloadTooLarge" for i, j, pl, rv, s in K.aggregates(b, "selium_std::errors::ProtocolError"))]
+    if len(c) != 1:
+        raise AnchorMissing("expected exactly one function building ProtocolError::PayloadTooLarge in selium_protocol, found %s" % [b.path for b in c])
+    return c[0]
+
+
+def dec_keep(F):
+    return (limit_fn(F).path, TRY_FROM)
 VARIANTS = ["RegisterPublisher", "RegisterSubscriber", "RegisterReplier", "RegisterRequestor",
             "Message", "BatchMessage", "Error", "Ok"]
 CONSUMERS = {"bytes::buf::buf_impl::Buf::advance", "bytes::buf::buf_impl::Buf::get_u8", "bytes::bytes_mut::BytesMut::split_to",
@@ -203,7 +218,7 @@ def d2(ctx, F):
               "C05.D2.encoder-layout", "encode:order", "encoder writes length, then type, then payload", p64[0].span)
     wend = BE_WRITE[strip_generics(p64[0].callee)]
     # decoder prefix read
-    dec = F.inlined(F.one_body(r"^<selium_protocol::codec::MessageCodec as tokio_util::codec::decoder::Decoder>::decode$"), keep=DEC_KEEP)
+    dec = F.inlined(F.one_body(r"^<selium_protocol::codec::MessageCodec as tokio_util::codec::decoder::Decoder>::decode$"), keep=dec_keep(F))
     ctx.touch(dec)
     rd = [c for c in dec.calls() if strip_generics(c.callee) in BE_READ]
     if ctx.check(len(rd) == 1, "C05.D2.prefix-endianness", "decode:prefix-read-shape", "decoder reads the u64 prefix exactly once", dec.span):
@@ -223,7 +238,7 @@ def d2(ctx, F):
 
 
 def d3(ctx, F):
-    v = F.body("selium_protocol::codec::validate_payload_length")
+    v = limit_fn(F)
     ctx.touch(v)
     # cmp skeleton
     found = False
@@ -250,9 +265,9 @@ def d3(ctx, F):
     ctx.check(found, "C05.D3.limit-comparison", "validate:no-cmp", "validate_payload_length compares its argument with the limit constant", v.span)
 
     enc = F.one_body(r"^<selium_protocol::codec::MessageCodec as tokio_util::codec::encoder::Encoder<selium_protocol::frame::Frame>>::encode$")
-    dec = F.inlined(F.one_body(r"^<selium_protocol::codec::MessageCodec as tokio_util::codec::decoder::Decoder>::decode$"), keep=DEC_KEEP)
+    dec = F.inlined(F.one_body(r"^<selium_protocol::codec::MessageCodec as tokio_util::codec::decoder::Decoder>::decode$"), keep=dec_keep(F))
     for b, side in ((enc, "encode"), (dec, "decode")):
-        vc = b.calls_to("selium_protocol::codec::validate_payload_length")
+        vc = b.calls_to(v.path)
         if not ctx.check(len(vc) >= 1, "C05.D3.limit-enforced", "%s:no-validate" % side,
                          "%s calls validate_payload_length" % side, b.span):
             continue
@@ -313,13 +328,13 @@ def d3(ctx, F):
 
 
 def d4(ctx, F):
-    dec = F.inlined(F.one_body(r"^<selium_protocol::codec::MessageCodec as tokio_util::codec::decoder::Decoder>::decode$"), keep=DEC_KEEP)
+    dec = F.inlined(F.one_body(r"^<selium_protocol::codec::MessageCodec as tokio_util::codec::decoder::Decoder>::decode$"), keep=dec_keep(F))
     consumers = [c for c in dec.calls() if is_consumer(c)]
     ctx.floor("C05.D4.consumers", len(consumers), 3)
     # blocks that build Ok(None)
     none_blocks = set()
     for i, j, pl, rv, s in K.aggregates(dec, "core::option::Option"):
-        if rv["variant"] == "None":
+        if rv["variant"] == "None" and not s.get("macros"):       # (assert_eq! passes `None` as its message argument)
             none_blocks.add(i)
     ctx.floor("C05.D4.need-more-exits", len(none_blocks), 2)
     for c in consumers:
@@ -465,6 +480,32 @@ def d5(ctx, F):
                     e = flow.root(r, o, through_calls=()) if o.get("k") in ("copy", "move") else None
                     if e and e[0] == "call" and e[1] is hdr[0]:
                         okn = True
+    if not okn and hdr:
+        # countdown form: `let mut left = count; loop { if left == 0 { break } left -= 1; .. }`
+        lps = flow.loops(r)
+        for i, bl in enumerate(r.blocks):
+            sc = flow.switch_condition(r, i)
+            if not (sc and sc.get("kind") == "cmp" and any(i in l for l in lps)):
+                continue
+            for o, z in ((sc["a"], sc["b"]), (sc["b"], sc["a"])):
+                if flow.const_of(z) != 0 or o.get("k") not in ("copy", "move"):
+                    continue
+                L = flow.root_local(r, o)
+                inits, decs, other = 0, 0, 0
+                for d in r.defs().get(L, []):
+                    if d[0] != "assign":
+                        other += 1
+                        continue
+                    rv = d[3]
+                    e = flow.root(r, rv["op"], through_calls=()) if rv["k"] in ("use", "cast") else None
+                    if e and e[0] == "call" and e[1] is hdr[0]:
+                        inits += 1
+                    elif e and e[0] == "rv" and e[1]["k"] == "binop" and e[1]["op"] in ("SubWithOverflow", "Sub") and flow.const_of(e[1]["b"]) == 1 and flow.root_local(r, e[1]["a"]) == L:
+                        decs += 1
+                    else:
+                        other += 1
+                if inits == 1 and decs >= 1 and other == 0:
+                    okn = True
     ctx.check(okn, "C05.D5.batch-count", "batch-reader-count", "the batch reader reads exactly the announced number of elements (loop bound = the count header, unmodified)",
               (rng[0][2]["span"] if rng else r.span))
     # writer header is the element count, element prefix is that element's length
